@@ -172,13 +172,17 @@ func (ex *Exec) stub(st *State, fr *Frame, fn *ssa.Function, args []Value, isDef
 		cur := ex.term(ex.load(st, p, t))
 		eq := ts.Eq(cur, ex.term(args[1]))
 		if ex.decide(st, eq) {
+			ex.inAtomic = true
 			ex.store(st, p, args[2], t)
+			ex.inAtomic = false
 			return ts.True, true
 		}
 		return ts.False, true
 	case "sync/atomic.StoreUint32", "sync/atomic.StoreInt32", "sync/atomic.StoreUint64", "sync/atomic.StoreInt64":
 		ex.stats.Stubs[full]++
+		ex.inAtomic = true
 		ex.store(st, args[0].(PtrV), args[1], fn.Signature.Params().At(1).Type())
+		ex.inAtomic = false
 		return unit, true
 	case "sync/atomic.LoadUint32", "sync/atomic.LoadInt32", "sync/atomic.LoadUint64", "sync/atomic.LoadInt64":
 		ex.stats.Stubs[full]++
@@ -188,7 +192,9 @@ func (ex *Exec) stub(st *State, fr *Frame, fn *ssa.Function, args []Value, isDef
 		t := fn.Signature.Params().At(1).Type()
 		p := args[0].(PtrV)
 		nv := ts.Add(ex.term(ex.load(st, p, t)), ex.term(args[1]))
+		ex.inAtomic = true
 		ex.store(st, p, nv, t)
+		ex.inAtomic = false
 		return nv, true
 	case "hash/maphash.MakeSeed":
 		ex.stats.Stubs[full]++
@@ -249,7 +255,7 @@ var intrinsicNames = map[string]bool{}
 func init() {
 	for _, n := range strings.Fields(`zzRegister zzU8 zzU16 zzU32 zzU64 zzBool zzInt zzPick zzBytesCap zzBytes zzString zzAssume zzAssert
 		zzFail zzAssertEqBytes zzAssertEqStr zzAssertEqStrBytes zzReach zzObserve zzAnd zzOr zzImplies zzNot zzIteInt zzParam zzEqStr
-		zzEqBytes zzEqStrBytes zzConcrete zzMarkCaller zzIsFreed zzSameMem zzSameMemStr zzDisjoint zzHavocFreed zzNative`) {
+		zzEqBytes zzEqStrBytes zzConcrete zzMarkCaller zzIsFreed zzSameMem zzSameMemStr zzDisjoint zzHavocFreed zzNative zzFreeze`) {
 		intrinsicNames[n] = true
 	}
 }
@@ -563,6 +569,15 @@ func (ex *Exec) intrinsic(st *State, fr *Frame, name string, args []Value) Value
 			if o != nil && o.kind == KBytes && o.freed {
 				ow := ex.objW(st, id)
 				ow.arr = ts.BaseArr("cotenant")
+			}
+		}
+		return unit
+	case "zzFreeze":
+		// everything that exists now is shared with other instances / goroutines
+		st.freezeGlobals = true
+		for id := 1; id < len(st.heap); id++ {
+			if st.heap[id] != nil && !st.heap[id].frozen {
+				ex.objW(st, id).frozen = true
 			}
 		}
 		return unit
